@@ -4,6 +4,7 @@ validation, ordering, kwargs, extras, batching).
 -/
 import CobaVerif.Model.C06
 import CobaVerif.Generated.C06Tables
+import CobaVerif.Generated.C06RowProgram
 
 set_option linter.unusedSimpArgs false
 set_option linter.unusedVariables false
@@ -3646,4 +3647,174 @@ theorem hetero_evaluates_only_if' (c : Config) (L : Learner σ V) (first : Dict 
     | ok o => exact runChunks_singles_ok _ s [] [] hr
 
 end Hetero2
+/-! ## Phase 5: the calls the learner object sees (SafeLearner's call discipline) -/
+
+theorem rowLevel_append (a b : List RawCall) : rowLevel (a ++ b) = rowLevel a ++ rowLevel b := by
+  induction a with
+  | nil => rfl
+  | cons x t ih =>
+    cases x with
+    | scoreProbe => simpa [rowLevel] using ih
+    | orient i => simpa [rowLevel] using ih
+    | row m i => simp [rowLevel, ih]
+    | batch m rows ok => cases ok <;> simp [rowLevel, ih]
+
+theorem rowLevel_rows (m : Meth) (rows : List Nat) : rowLevel (rows.map (RawCall.row m)) = rows.map (fun i => (m, i)) := by
+  induction rows with
+  | nil => rfl
+  | cons i t ih => simp [rowLevel, ih]
+
+theorem rowLevel_safeCall (aware : Bool) (st : SafeSt) (m : Meth) (rows : List Nat) :
+    rowLevel (safeCall aware st m rows).2 = rows.map (fun i => (m, i)) := by
+  unfold safeCall
+  split
+  · simp [rowLevel]
+  · simp [rowLevel_rows]
+  · split <;> simp [rowLevel, rowLevel_rows]
+
+theorem rowLevel_predictCall (aware : Bool) (width : Option Nat) (st : SafeSt) (rows : List Nat) :
+    rowLevel (predictCall aware width st rows).2 = rows.map (fun i => (Meth.predict, i)) := by
+  unfold predictCall
+  simp only []
+  split
+  · exact rowLevel_safeCall ..
+  · simp only [rowLevel_append, rowLevel_safeCall]
+    split
+    · cases rows <;> simp [rowLevel]
+    · simp [rowLevel]
+
+theorem rowLevel_phaseCall (batched aware : Bool) (width : Option Nat) (st : SafeSt) (m : Meth) (rows : List Nat) :
+    rowLevel (phaseCall batched aware width st m rows).2 = rows.map (fun i => (m, i)) := by
+  unfold phaseCall
+  split
+  · simp [rowLevel_rows]
+  · split
+    · rename_i h; have : m = .predict := by simpa using h
+      subst this; exact rowLevel_predictCall ..
+    · exact rowLevel_safeCall ..
+
+theorem rowLevel_rawChunk (batched aware : Bool) (width : Option Nat) (phases : List Meth) (st : SafeSt) (rows : List Nat) :
+    rowLevel (rawChunk batched aware width phases st rows).2 = phases.flatMap (fun m => rows.map (fun i => (m, i))) := by
+  induction phases generalizing st with
+  | nil => rfl
+  | cons m ms ih => simp [rawChunk, rowLevel_append, rowLevel_phaseCall, ih]
+
+theorem rowLevel_rawRun' (batched aware : Bool) (width : Option Nat) (phases : List Meth) (st : SafeSt) (cs : List (List Nat)) :
+    rowLevel (rawRun batched aware width phases st cs) = skeleton phases cs := by
+  induction cs generalizing st with
+  | nil => rfl
+  | cons ch rest ih => simp [rawRun, skeleton, rowLevel_append, rowLevel_rawChunk, ih]
+
+
+theorem countOrient_append (a b : List RawCall) : countOrient (a ++ b) = countOrient a + countOrient b := by
+  induction a with
+  | nil => simp [countOrient]
+  | cons x t ih => cases x <;> simp [countOrient, ih] <;> omega
+
+theorem countRefused_append (a b : List RawCall) : countRefused (a ++ b) = countRefused a + countRefused b := by
+  induction a with
+  | nil => simp [countRefused]
+  | cons x t ih =>
+    cases x with
+    | batch m rows ok => cases ok <;> simp [countRefused, ih] <;> omega
+    | _ => simp [countRefused, ih]
+
+theorem countOrient_rows (m : Meth) (rows : List Nat) : countOrient (rows.map (RawCall.row m)) = 0 := by
+  induction rows with
+  | nil => rfl
+  | cons i t ih => simp [countOrient, ih]
+
+theorem countRefused_rows (m : Meth) (rows : List Nat) : countRefused (rows.map (RawCall.row m)) = 0 := by
+  induction rows with
+  | nil => rfl
+  | cons i t ih => simp [countRefused, ih]
+
+/-- a wrapper whose call discipline is decided for every method of `phases` -/
+def Settled (aware : Bool) (phases : List Meth) (st : SafeSt) : Prop :=
+  (∀ m ∈ phases, st.get m = some aware) ∧ (Meth.predict ∈ phases → st.parsed = true)
+
+theorem settled_phaseCall {aware : Bool} {phases : List Meth} {st : SafeSt} (hs : Settled aware phases st)
+    (width : Option Nat) {m : Meth} (hm : m ∈ phases) (rows : List Nat) :
+    (phaseCall true aware width st m rows).1 = st ∧ countOrient (phaseCall true aware width st m rows).2 = 0
+      ∧ countRefused (phaseCall true aware width st m rows).2 = 0 := by
+  have hg := hs.1 m hm
+  have hp : m = .predict → st.parsed = true := fun h => hs.2 (h ▸ hm)
+  cases aware <;> cases m <;>
+    simp_all [phaseCall, predictCall, safeCall, countOrient, countRefused, countOrient_rows, countRefused_rows]
+
+theorem settled_rawChunk {aware : Bool} {phases : List Meth} {st : SafeSt} (hs : Settled aware phases st)
+    (width : Option Nat) (ms : List Meth) (hms : ∀ m ∈ ms, m ∈ phases) (rows : List Nat) :
+    (rawChunk true aware width ms st rows).1 = st ∧ countOrient (rawChunk true aware width ms st rows).2 = 0
+      ∧ countRefused (rawChunk true aware width ms st rows).2 = 0 := by
+  induction ms with
+  | nil => simp [rawChunk, countOrient, countRefused]
+  | cons m t ih =>
+    have h1 := settled_phaseCall hs width (hms m (by simp)) rows
+    have h2 := ih (fun x hx => hms x (by simp [hx]))
+    simp only [rawChunk, h1.1, countOrient_append, countRefused_append]
+    exact ⟨h2.1, by omega, by omega⟩
+
+theorem settled_rawRun {aware : Bool} {phases : List Meth} {st : SafeSt} (hs : Settled aware phases st)
+    (width : Option Nat) (cs : List (List Nat)) :
+    countOrient (rawRun true aware width phases st cs) = 0 ∧ countRefused (rawRun true aware width phases st cs) = 0 := by
+  induction cs with
+  | nil => simp [rawRun, countOrient, countRefused]
+  | cons ch rest ih =>
+    have h := settled_rawChunk hs width phases (fun _ h => h) ch
+    simp only [rawRun, h.1, countOrient_append, countRefused_append]
+    exact ⟨by omega, by omega⟩
+
+/-- the first pass of a fresh wrapper, for the phase lists `_results` can have: afterwards the wrapper is settled -/
+theorem first_pass (c : Config) (hasScore aware : Bool) (width : Option Nat) (i : Nat) (t : List Nat) :
+    Settled aware (phasesOf c hasScore) (rawChunk true aware width (phasesOf c hasScore) {} (i :: t)).1 ∧
+    countOrient (rawChunk true aware width (phasesOf c hasScore) {} (i :: t)).2
+      = (if aware && shouldPred c hasScore && (width == some (t.length + 1)) then 1 else 0) ∧
+    countRefused (rawChunk true aware width (phasesOf c hasScore) {} (i :: t)).2
+      = (if aware then 0 else (phasesOf c hasScore).length) := by
+  refine ⟨?_, ?_, ?_⟩ <;>
+  · simp only [phasesOf, Settled]
+    cases aware <;> cases shouldPred c hasScore <;> cases (c.eval == .ips && hasScore) <;> cases (c.learn != .none) <;>
+      simp [rawChunk, phaseCall, predictCall, safeCall, SafeSt.get, SafeSt.set, countOrient, countRefused,
+        countOrient_append, countRefused_append, countOrient_rows, countRefused_rows] <;>
+      (try (split <;> simp_all [countOrient, countRefused]))
+
+theorem calls_seen_by_learner_batched' (c : Config) (hasScore aware : Bool) (width : Option Nat) (i : Nat) (t : List Nat)
+    (rest : List (List Nat)) :
+    rowLevel (rawRun true aware width (phasesOf c hasScore) {} ((i :: t) :: rest))
+      = skeleton (phasesOf c hasScore) ((i :: t) :: rest) ∧
+    countOrient (rawRun true aware width (phasesOf c hasScore) {} ((i :: t) :: rest))
+      = (if aware && shouldPred c hasScore && (width == some (t.length + 1)) then 1 else 0) ∧
+    countRefused (rawRun true aware width (phasesOf c hasScore) {} ((i :: t) :: rest))
+      = (if aware then 0 else (phasesOf c hasScore).length) := by
+  have h := first_pass c hasScore aware width i t
+  have h2 := settled_rawRun h.1 width rest
+  refine ⟨rowLevel_rawRun' .., ?_, ?_⟩
+  · simp only [rawRun, countOrient_append, h.2.1, h2.1]; simp
+  · simp only [rawRun, countRefused_append, h.2.2, h2.2]; simp
+
+theorem rawChunk_unbatched (aware : Bool) (width : Option Nat) (phases : List Meth) (st : SafeSt) (rows : List Nat) :
+    (rawChunk false aware width phases st rows).2 = phases.flatMap (fun m => rows.map (RawCall.row m)) := by
+  induction phases generalizing st with
+  | nil => rfl
+  | cons m ms ih => simp [rawChunk, phaseCall, ih]
+
+theorem calls_seen_by_learner_unbatched' (aware : Bool) (width : Option Nat) (phases : List Meth) (st : SafeSt) (cs : List (List Nat)) :
+    rawRun false aware width phases st cs = cs.flatMap (fun ch => phases.flatMap (fun m => ch.map (RawCall.row m))) := by
+  induction cs generalizing st with
+  | nil => rfl
+  | cons ch rest ih => simp [rawRun, rawChunk_unbatched, ih]
+
+/-! ## Phase 5: translator tie for the record-construction code -/
+
+theorem filter_map_cons_ite {α β : Type} (p : α → Bool) (f : α → β) (x : α) (l : List α) :
+    ((x :: l).filter p).map f = (if p x then [f x] else []) ++ (l.filter p).map f := by
+  cases h : p x <;> simp [List.filter, h]
+
+theorem record_program_matches' (c : Config) (fl : Flags) (sp batched hasPr : Bool) (hop : c.rcd "ope_loss" = false) :
+    progKeys Coba.Generated.C06.flagDefs Coba.Generated.C06.rowProgram c fl sp batched hasPr
+      = timeKeys c ++ recordKeys c fl sp batched hasPr := by
+  simp only [progKeys, Coba.Generated.C06.flagDefs, Coba.Generated.C06.rowProgram, timeKeys, recordKeys, outAction, outProb,
+    filter_map_cons_ite, List.filter_nil, List.map_nil, List.append_nil]
+  simp [atomVal, guardVal, List.lookup, hop, Bool.and_assoc]
+
 end Coba.C06
